@@ -11,10 +11,11 @@ Local Open Scope Z_scope.
     the filing place exactly as the documented policy does — for every
     configuration (non-empty default folder), every user/role table
     (UNIQUE(username, domain)), every list of recipient addresses (any byte
-    strings) and every message — outside the one remaining finding class
-    (quota_enabled and some recipient over quota). *)
+    strings) and every message. No finding class is left: allowed domains,
+    unknown users, recipient limit, size limit and quota all decide as
+    documented (quota since the fix C17-4: refused iff usage + size > limit). *)
 Theorem c17_policy_exact : forall cfg d addrs m,
-  cfg_ok cfg -> wf_db d -> classify cfg d addrs m = None ->
+  cfg_ok cfg -> wf_db d ->
   txn_outcomes (run_txn_addr cfg d addrs m) = map erase (fst (spec_txn cfg d addrs m)) /\
   do_db (to_data (run_txn_addr cfg d addrs m)) = snd (spec_txn cfg d addrs m).
 Proof. exact policy_exact. Qed.
@@ -49,15 +50,22 @@ Theorem c17_data_resets : forall cfg d rec m,
 Proof. exact data_resets. Qed.
 Print Assumptions c17_data_resets.
 
-(** F. Whatever the model files, it files in the store of exactly the RCPT
-    address (role store iff enabled role address, else user local@domain) and
-    in Spam iff the spam headers mark the message, else the default folder.
-    No finding-class hypothesis. *)
+(** F. Whatever the model files, it files for a recipient that is within quota,
+    in the store of exactly the RCPT address (role store iff enabled role
+    address, else user local@domain) and in Spam iff the spam headers mark the
+    message, else the default folder. *)
 Theorem c17_filed_where : forall cfg d acc m r st f,
   In (r, D_ok st f) (do_deliveries (handle_data cfg d acc m)) ->
-  In r acc /\ spec_target d r = Some st /\ f = spec_folder cfg m.
+  In r acc /\ over_quota cfg d m r = false /\ spec_target d r = Some st /\ f = spec_folder cfg m.
 Proof. exact filed_where. Qed.
 Print Assumptions c17_filed_where.
+
+(** quota in words: a recipient is over quota iff quota is enabled and the bytes
+    in the mailbox its mail goes to, plus the message, exceed the limit *)
+Theorem c17_over_quota_meaning : forall cfg d m r,
+  over_quota cfg d m r = true <-> quota_enabled cfg = true /\ mailbox_usage d r + m_size m > quota_limit cfg.
+Proof. exact over_quota_meaning. Qed.
+Print Assumptions c17_over_quota_meaning.
 
 (** F. no twins: a message lands in a role store only if the RCPT address is,
     byte for byte, the address of an enabled role mailbox; in a user store only
@@ -83,13 +91,17 @@ Example c17_like_twin_goes_to_its_own_store :
   spec_target d (S_ "support-team@example.com") = Some (RoleStore (S_ "support-team@example.com")).
 Proof. vm_compute. auto. Qed.
 
-(** F. the 250/550 replies of DATA tell what each DeliverMessage call did, also
-    when an address is given twice (results map keyed by address) *)
+(** F. the per-recipient replies of DATA tell what happened to each recipient:
+    one over quota is refused (552 5.2.2) and has no delivery, the others are
+    answered 250 exactly when THEIR delivery filed the message, also when an
+    address is given twice (results map keyed by address); one reply per
+    accepted recipient *)
 Theorem c17_replies_truthful : forall cfg d acc m replies,
   do_reply (handle_data cfg d acc m) = DR_per replies ->
-  zip_outcomes replies (do_deliveries (handle_data cfg d acc m))
-    = map (fun kv => to_mo (snd kv)) (do_deliveries (handle_data cfg d acc m)) /\
-  map fst (do_deliveries (handle_data cfg d acc m)) = acc.
+  zip_outcomes (do_over_quota (handle_data cfg d acc m)) replies (do_deliveries (handle_data cfg d acc m))
+    = weave (over_quota cfg d m) acc (map (fun kv => to_mo (snd kv)) (do_deliveries (handle_data cfg d acc m))) /\
+  map fst (do_deliveries (handle_data cfg d acc m)) = filter (fun r => negb (over_quota cfg d m r)) acc /\
+  length replies = length acc.
 Proof. exact replies_truthful. Qed.
 Print Assumptions c17_replies_truthful.
 
@@ -146,16 +158,13 @@ Theorem c17_rcpt_452_exact : forall cfg d rec args,
 Proof. exact rcpt_452_exact. Qed.
 Print Assumptions c17_rcpt_452_exact.
 
-(** R. the remaining finding class is inhabited and the model really differs
-    from the documented policy there *)
-Theorem c17_refuted_quota_not_enforced :
-  exists cfg d addrs m, cfg_ok cfg /\ wf_db d /\
-    classify cfg d addrs m = Some K_quota_not_enforced /\
-    fst (spec_txn cfg d addrs m) = [Refused WhyQuota] /\
-    txn_outcomes (run_txn_addr cfg d addrs m) = [MFiled (UserStore (S_ "bob") (S_ "a.org")) (S_ "INBOX")] /\
-    do_quota_logged (to_data (run_txn_addr cfg d addrs m)) = addrs.
-Proof. exact refuted_quota. Qed.
-Print Assumptions c17_refuted_quota_not_enforced.
+(** quota enforced on the witness that used to refute it (class quota_not_enforced, fix C17-4) *)
+Example c17_quota_enforced :
+  txn_outcomes (run_txn_addr (w_cfg false true 10) w_db [S_ "bob@a.org"; S_ "support@a.org"] w_msg) = [MRefused; MRefused] /\
+  txn_outcomes (run_txn_addr (w_cfg false true 100) w_db [S_ "bob@a.org"; S_ "support@a.org"] w_msg)
+    = [MFiled (UserStore (S_ "bob") (S_ "a.org")) (S_ "INBOX"); MFiled (RoleStore (S_ "support@a.org")) (S_ "INBOX")] /\
+  msgs (do_db (to_data (run_txn_addr (w_cfg false true 10) w_db [S_ "bob@a.org"] w_msg))) = [].
+Proof. exact quota_example. Qed.
 
 (** regression examples about the code BEFORE the fixes C17-1/2/3 (old
     definitions, not the current model) *)
@@ -186,10 +195,9 @@ Example c17_policy_example :
   let m := mkMsg 100 [(S_ "x-spam-status", S_ " YES, score=9")] true in
   let addrs := [S_ "bob@a.org"; S_ "bob@b.org"; S_ "support@a.org"; S_ "dis@a.org"; S_ "new@a.org";
                 S_ "postmaster"; S_ "bob@a.org"; S_ "x@a.org"] in
-  classify cfg d addrs m = None /\
   txn_outcomes (run_txn_addr cfg d addrs m) =
     [MFiled (UserStore (S_ "bob") (S_ "a.org")) Spam; MRefused;
      MFiled (RoleStore (S_ "support@a.org")) Spam; MRefused;
      MFiled (UserStore (S_ "new") (S_ "a.org")) Spam; MRefused;
      MFiled (UserStore (S_ "bob") (S_ "a.org")) Spam; MRefused].
-Proof. vm_compute. split; reflexivity. Qed.
+Proof. vm_compute. reflexivity. Qed.
